@@ -77,6 +77,7 @@ TX == [
   t5 |-> Tok({<<"t4", 2>>}, <<O("a", 4)>>),                           \* spends the frozen output
   t6 |-> Tok({<<"t1", 1>>, <<"t4", 0>>}, <<O("c", 6), O(Fee, 1)>>),   \* two parents, fee
   t7 |-> Tok({<<"t2", 0>>}, <<O("a", 4)>>),                           \* chain of depth 3
+  t8 |-> Tok({<<"g", 1>>}, <<O("c", 4), O(Fee, 1), O(Fee, 1)>>),         \* two fee outputs
   p1 |-> KV(R1(None), R1("v1")),                                      \* create k1
   p2 |-> KV(R1("p1"), R1("v2")),                                      \* overwrite
   p3 |-> KV(R1("p1"), R1(Del)),                                       \* delete (conflicts with p2)
